@@ -179,6 +179,14 @@ func (mi *MessageInfo) unmarshalPointerEager(b []byte, p pointer, groupTag proto
 			if f.funcs.unmarshal == nil {
 				break
 			}
+			if f.isLazy && mi.lazyOffset.IsValid() && f.presenceIndex != noPresence && presence.Present(f.presenceIndex) {
+				// The message was unmarshaled lazily before and this field is
+				// still deferred: decode it first, so that the new data is
+				// merged into it instead of replacing it.
+				if p.Apply(f.offset).AtomicGetPointer().IsNil() {
+					mi.lazyUnmarshal(p, f.num)
+				}
+			}
 			var o unmarshalOutput
 			o, err = f.funcs.unmarshal(b, p.Apply(f.offset), wtyp, f, opts)
 			n = o.n
